@@ -166,7 +166,27 @@ pub fn oracle<E: Engine>(_ctx: &RunCtx, spec: &BindSpec, log: &mut CaseLog) -> R
     let alts = alterations(&t.cfg, rounds, &spec.base.ctx, spec.rep);
     let mut tested = 0u64;
     let mut controls = 0u64;
+    // Does this verifier let the compressed copies decide anything? Replace one by the encoding of another point: if the triple
+    // is still accepted, the copies are a cache the verifier does not consult (it works from the points), and rewriting them is
+    // not an alteration of the triple. If it is refused, every rewriting of a copy has to be noticed (a copy that is consulted
+    // except for its top bit, or except when the list is empty, is a hole).
+    let consults = |edit: CompEdit| -> Result<bool, String> {
+        let mut ps = PubStatement::<E>::of(&t);
+        ps.apply(&StMut::CompressedCopy(edit));
+        Ok(match guarded(|| ps.statement(t.seed))? {
+            Ok(st) => guarded(|| E::verify(&mut [ps.ctx.transcript()], &[st], &[proof.clone()], VerifyAction::VerifyOnly))?.is_err(),
+            Err(_) => true,
+        })
+    };
+    let consults_commitment_copies = consults(CompEdit::Commitment { j: 0, how: CompHow::Fresh(spec.rep ^ 0x9a9a) })?;
+    let consults_generator_copies = consults(CompEdit::H(CompHow::Fresh(spec.rep ^ 0x8b8b)))?;
+    log.label(format!("compressed-copies-consulted:commitments={} generators={}", consults_commitment_copies, consults_generator_copies));
     for alt in &alts {
+        match alt {
+            Alt::S(StMut::CompressedCopy(CompEdit::Commitment { .. })) | Alt::S(StMut::CompressedCopy(CompEdit::List(_))) if !consults_commitment_copies => continue,
+            Alt::S(StMut::CompressedCopy(CompEdit::H(_))) | Alt::S(StMut::CompressedCopy(CompEdit::G { .. })) if !consults_generator_copies => continue,
+            _ => {},
+        }
         let mut ps = PubStatement::<E>::of(&t);
         let mut b2 = bytes.clone();
         let mut equivalent = false;
